@@ -189,7 +189,7 @@ pub fn drive_linear(a: &Args, m: &mut Mon, sink: &mut Sink) {
         "segments_checked", "narrow_segment_constant", "evaluations_checked", "very_long_knot_sets"]);
     linear_canaries(m, sink);
     let mut r = Rng::lane(a.seed, "C06", a.shard, 0);
-    let n = a.n(60_000, 2_500_000);
+    let n = a.n(60_000, 4_000_000);
     for k in 0..n {
         let nk = if k % 2500 == 77 {
             m.count("very_long_knot_sets");
